@@ -108,7 +108,19 @@ EraLangs(e) ==
       [] e = "babbage"  -> {0, 1}
       [] e = "conway"   -> {0, 1, 2}
       [] e = "dijkstra" -> {0, 1, 2, 3}
-ErasOf(L) == {e \in Eras : L \subseteq (EraLangs(e) \cap Langs)}
+
+\* the datum field (witness-set key 4) of the transaction:
+\*   absent                       no key 4
+\*   emptyList / emptySet         key 4 present with an EMPTY collection: [] (0x80) or 258([]) (0xd9 0x0102 0x80)
+\*   list / set                   key 4 with datums, as a plain list or as a tag-258 set
+\* The ledger (Alonzo hashScriptIntegrity and its successors) hashes the original
+\* datum bytes only when the collection is NON-EMPTY; a present-but-empty field
+\* contributes nothing to the hash and does not by itself demand a hash.
+DatFields == {"absent", "emptyList", "emptySet", "list", "set"}
+Dat(c) == c.datf \in {"list", "set"}                 \* the transaction has datums
+SetForm(fld) == fld \in {"emptySet", "set"}              \* tag-258 sets exist from Conway on
+
+ErasOf(L, fld) == {e \in Eras : L \subseteq (EraLangs(e) \cap Langs) /\ (SetForm(fld) => e \in {"conway", "dijkstra"})}
 
 \* what a transaction can declare
 Decls == {"absent", "right",
@@ -116,7 +128,8 @@ Decls == {"absent", "right",
           "reencRed",     \* hash over the canonical re-encoding of the redeemers
           "reencDat",     \* hash over the canonical re-encoding of the datums
           "noDat",        \* datum bytes left out
-          "emptyDat",     \* an encoded empty datum list where no datums are present
+          "emptyDat",     \* no datums, but the bytes of an empty collection hashed in their place: the
+                          \* field's own bytes if key 4 is present and empty, else 0x80 ("emptyfield")
           "byNumber",     \* keys ordered by language number
           "v1Single",     \* PlutusV1 key and value not wrapped in byte strings
           "v1Definite",   \* PlutusV1 parameters as a definite list (still wrapped)
@@ -131,18 +144,18 @@ FirstLang(L) == IF L = {} THEN -1 ELSE CHOOSE x \in L : \A y \in L : x <= y
 Term(r, d, lv) == [red |-> r, dat |-> d, lv |-> lv]
 Rand == Term("random", "random", <<>>)
 
-Right(c) == Term(IF c.red THEN "orig" ELSE "empty", IF c.dat THEN "orig" ELSE "none", LangViews(c.L, c.shape))
+Right(c) == Term(IF c.red THEN "orig" ELSE "empty", IF Dat(c) THEN "orig" ELSE "none", LangViews(c.L, c.shape))
 
 \* the declared term as the fields the driver needs: redeemer bytes, datum
 \* bytes, language set and variant of the views
 DeclParts(c) ==
     LET r == IF c.red THEN "orig" ELSE "empty"
-        d == IF c.dat THEN "orig" ELSE "none"
+        d == IF Dat(c) THEN "orig" ELSE "none"
         P(rr, dd, LL, vv) == [red |-> rr, dat |-> dd, L |-> LL, v |-> vv]
     IN CASE c.decl = "reencRed"   -> P(IF c.red THEN "reenc" ELSE r, d, c.L, "spec")
-         [] c.decl = "reencDat"   -> P(r, IF c.dat THEN "reenc" ELSE d, c.L, "spec")
+         [] c.decl = "reencDat"   -> P(r, IF Dat(c) THEN "reenc" ELSE d, c.L, "spec")
          [] c.decl = "noDat"      -> P(r, "none", c.L, "spec")
-         [] c.decl = "emptyDat"   -> P(r, IF c.dat THEN d ELSE "emptylist", c.L, "spec")
+         [] c.decl = "emptyDat"   -> P(r, IF Dat(c) THEN d ELSE "emptyfield", c.L, "spec")
          [] c.decl \in Variants   -> P(r, d, c.L, c.decl)
          [] c.decl = "moreLangs"  -> P(r, d, IF NextLang(c.L) < 0 THEN c.L ELSE c.L \cup {NextLang(c.L)}, "spec")
          [] c.decl = "fewerLangs" -> P(r, d, c.L \ {FirstLang(c.L)}, "spec")
@@ -152,7 +165,7 @@ Declared(c) ==
     IF c.decl = "random" THEN Rand
     ELSE LET p == DeclParts(c) IN Term(p.red, p.dat, View(p.L, c.shape, p.v))
 
-HasScriptData(c) == c.red \/ c.dat
+HasScriptData(c) == c.red \/ Dat(c)
 
 Accept(c) ==
     IF ~HasScriptData(c) THEN c.decl = "absent"
@@ -166,8 +179,8 @@ Reason(c) ==
 ---------------------------------------------------------------------------
 (* The case space (one state per case)                                      *)
 
-Case(L, shape, red, dat, decl) == [L |-> L, shape |-> shape, red |-> red, dat |-> dat, decl |-> decl]
-CaseSpace == { Case(L, s, r, d, k) : L \in SUBSET Langs, s \in RuleShapes, r \in BOOLEAN, d \in BOOLEAN, k \in Decls }
+Case(L, shape, red, datf, decl) == [L |-> L, shape |-> shape, red |-> red, datf |-> datf, decl |-> decl]
+CaseSpace == { Case(L, s, r, d, k) : L \in SUBSET Langs, s \in RuleShapes, r \in BOOLEAN, d \in DatFields, k \in Decls }
 
 VARIABLE c
 Init == c \in CaseSpace
@@ -219,8 +232,11 @@ RuleShape ==
     /\ (c.decl = "random" => ~Accept(c))
     /\ (~HasScriptData(c) /\ c.decl # "absent" => Reason(c) = "extraneous")
     /\ (HasScriptData(c) /\ c.decl = "reencRed" => (Accept(c) <=> ~c.red))
-    /\ (HasScriptData(c) /\ c.decl \in {"reencDat", "noDat"} => (Accept(c) <=> ~c.dat))
-    /\ (HasScriptData(c) /\ c.decl = "emptyDat" => (Accept(c) <=> c.dat))
+    /\ (HasScriptData(c) /\ c.decl \in {"reencDat", "noDat"} => (Accept(c) <=> ~Dat(c)))
+    /\ (HasScriptData(c) /\ c.decl = "emptyDat" => (Accept(c) <=> Dat(c)))
+    \* a present-but-empty datum field behaves exactly like an absent one
+    /\ Accept(c) = Accept([c EXCEPT !.datf = IF Dat(c) THEN c.datf ELSE "absent"])
+    /\ (~Dat(c) => Right(c).dat = "none")
     /\ (HasScriptData(c) /\ c.decl = "moreLangs" => (Accept(c) <=> c.L = Langs))
     /\ (HasScriptData(c) /\ c.decl = "fewerLangs" => (Accept(c) <=> c.L = {}))
     /\ (HasScriptData(c) /\ c.decl \in Variants => (Accept(c) <=> View(c.L, c.shape, c.decl) = cv))
@@ -235,9 +251,9 @@ ViewRow(L, shape, variant) ==
 
 Row(x) ==
     LET p == DeclParts(x) IN
-    [L |-> SetSeq(x.L), shape |-> x.shape, red |-> x.red, dat |-> x.dat, decl |-> x.decl,
+    [L |-> SetSeq(x.L), shape |-> x.shape, red |-> x.red, datf |-> x.datf, dat |-> Dat(x), decl |-> x.decl,
      declRed |-> p.red, declDat |-> p.dat, declL |-> SetSeq(p.L), declVariant |-> p.v,
-     eras |-> ErasOf(x.L), accept |-> Accept(x), reason |-> Reason(x)]
+     eras |-> ErasOf(x.L, x.datf), accept |-> Accept(x), reason |-> Reason(x)]
 
 Rows(S, F(_)) == LET q == SetToSeq(S) IN [i \in 1..Len(q) |-> F(q[i])]
 ViewKeys == (SUBSET Langs) \X Shapes \X Variants
